@@ -169,8 +169,9 @@ class ProgressIndicator(object):
         Overwrites a previous message to the output.
         """
         if self._io.supports_ansi():
-            self._io.write("\x0D\x1B[2K")
-            self._io.write(message)
+            # Erase and redraw in one write: the spinner thread and the caller's
+            # thread may both redraw, and their writes must not interleave
+            self._io.write("\x0D\x1B[2K" + message)
         else:
             self._io.write_line(message)
 
